@@ -173,7 +173,7 @@ func runC01(c *Ctx) {
 				"tokenizeStream(_, true, c.dict, _)", "corpus and target must be tokenised identically (normalize=true, the classifier's dictionary): otherwise a verbatim copy does not produce the tokens of its source")
 		}
 	}
-	c.R.RequireMin("R01.1", "tokenizeStream call sites", n, 3)
+	c.R.RequireMin("R01.1", "tokenizeStream call sites", n, 2)
 
 	// R01.2
 	nc := p.Func(v2pkg, "NewClassifier")
@@ -210,7 +210,7 @@ func runC01(c *Ctx) {
 			}
 		}
 	}
-	c.R.RequireMin("R01.2", "generateSearchSet call sites", ng, 2)
+	c.R.RequireMin("R01.2", "generateSearchSet call sites", ng, 1)
 
 	// R01.3 inclusive acceptance
 	for _, lit := range licenseLiterals(p) {
@@ -446,7 +446,7 @@ func runC05(c *Ctx) {
 		c.R.Check(ok, "R05.1", "tokenizeStream: bytes appended directly to the word buffer were lower-cased (normalize=true)", p.Pos(call.Pos()),
 			"the appended value is unicode.ToLower(...)", "a value reaches the word buffer through append without passing unicode.ToLower: re-casing the input changes the token")
 	}
-	c.R.RequireMin("R05.1", "runes appended to the word buffer", n, 3)
+	c.R.RequireMin("R05.1", "runes appended to the word buffer", n, 2)
 	// any other write into the word buffer (append of bytes) is unexpected
 	// R05.2 punctuation table
 	tab, ok := globalMapLiteral(p, v2pkg, "punctuationMappings")
@@ -489,7 +489,7 @@ func checkWordTable(c *Ctx, p *core.Prog) {
 		return
 	}
 	c.R.Count("R06.1:rows", len(tab))
-	c.R.RequireMin("R06.1", "rows of interchangeableWords", len(tab), 30)
+	c.R.RequireMin("R06.1", "rows of interchangeableWords", len(tab), 10)
 	var keys []string
 	for k := range tab {
 		keys = append(keys, k)
@@ -613,7 +613,7 @@ func runC06(c *Ctx) {
 			c.R.Check(ok, "R06.5", "stringifyLineBuf: the text interned for a token is cleanupToken(its position in the line, its word)", p.Pos(call.Pos()),
 				"dictionary lookup of cleanupToken(i, word, normalize) with i the loop index", "the interned text is not computed by cleanupToken at the token's own position ("+eng.Describe(txt)+"): list-marker removal depends on the position in the line, so a cached or shared result is wrong for other positions")
 		}
-		c.R.RequireMin("R06.5", "token interning sites", n, 2)
+		c.R.RequireMin("R06.5", "token interning sites", n, 1)
 	}
 
 	// R06.3 hyphenation flags survive refills
@@ -687,7 +687,7 @@ func checkFlagsSurviveRefill(c *Ctx, p *core.Prog) {
 				"enters the rune loop as a loop-carried value of the read loop", "the flag is re-initialised for every 1020-byte window: a hyphen-split word that straddles a refill boundary is not joined and its line is counted wrongly")
 		}
 	}
-	c.R.RequireMin("R06.3", "boolean state variables of the rune loop", n, 2)
+	c.R.RequireMin("R06.3", "boolean state variables of the rune loop", n, 1)
 }
 
 // checkPseudoMatchSegregation: R06.2. The slice iterated by the overlap filter must not contain the
@@ -793,7 +793,7 @@ func runC11(c *Ctx) {
 	if !ok || len(pats) == 0 {
 		c.R.Undecided("R11.3", "ignorableTexts table", "v2/tokenizer.go", "cannot read the patterns from the package initialiser")
 	} else {
-		c.R.RequireMin("R11.3", "ignorable-line patterns", len(pats), 3)
+		c.R.RequireMin("R11.3", "ignorable-line patterns", len(pats), 1)
 		for _, pat := range pats {
 			c.R.Check(strings.HasPrefix(pat, "(?i)"), "R11.3", "ignorableTexts pattern is case-insensitive: "+pat, "v2/tokenizer.go", "(?i)", "Normalize tokenises without lower-casing, so a case-sensitive pattern does not recognise a capitalised notice line that Match (lower-cased) does recognise: the two disagree on which lines are removed")
 		}
@@ -1086,7 +1086,7 @@ func runC17(c *Ctx) {
 			}
 		}
 	}
-	c.R.RequireMin("R17.1", "contributions to token Text", n, 2)
+	c.R.RequireMin("R17.1", "contributions to token Text", n, 1)
 
 	// R17.2 candidates sorted by target position
 	gm := p.Func(ssPkg, "getMatchedRanges")
